@@ -2,6 +2,7 @@ import Driver.Codec
 import BioscrapeModel.Model.EntryPoint
 import BioscrapeModel.Model.ModelState
 import BioscrapeModel.Model.Priors
+import BioscrapeModel.Model.Inference
 
 /-
 `modeldriver`: one JSON job per input line, one JSON answer per output line
@@ -12,7 +13,7 @@ open Lean Bioscrape Driver
 
 section
 variable {α : Type} [Codec α] [Zero α] [One α] [Add α] [Sub α] [Mul α] [Div α] [NatCast α] [IntCast α]
-  [LT α] [LE α] [DecidableLT α] [DecidableLE α] [Transc α] [Trunc α] [Neg α] [Uniform α]
+  [LT α] [LE α] [DecidableLT α] [DecidableLE α] [Transc α] [Trunc α] [Neg α] [Uniform α] [Inhabited α]
 
 def jobProp (j : Json) : Except String Json := do
   let q : Propensity α ← decProp (← j.getObjVal? "prop")
@@ -289,6 +290,62 @@ def jobPrior (j : Json) : Except String Json := do
   | some lp => return Json.mkObj [("lp", Codec.enc lp)]
   | none => return Json.mkObj [("lp", Json.null)]
 
+def decKV (j : Json) : Except String (List (Nat × α)) := do
+  let a ← j.getArr?
+  a.toList.mapM (fun e => do
+    let p ← e.getArr?
+    return ((← (p.getD 0 Json.null).getNat?), (← Codec.dec (α := α) (p.getD 1 Json.null))))
+
+def decRows (j : Json) : Except String (List (List α)) := do
+  let a ← j.getArr?
+  a.toList.mapM (fun r => do (← r.getArr?).toList.mapM (Codec.dec (α := α)))
+
+/-- data extraction and the deterministic inference cost.  Without `simrows` the job answers with the
+aligned data array and the parameter vector each trajectory is to be simulated with; with `simrows`
+(the implementation's own simulations for exactly those vectors) it answers with the cost. -/
+def jobInfer (j : Json) : Except String Json := do
+  let measurements ← getStrList j "measurements"
+  let frames ← (← getArr j "frames").toList.mapM (fun fj => do
+    let cols ← (← fj.getObjVal? "cols").getObj?
+    let names ← getStrList fj "order"
+    names.mapM (fun n => do
+      match cols.get? n with
+      | some c => do pure (n, ← (← c.getArr?).toList.mapM (Codec.dec (α := α)))
+      | none => throw s!"missing column {n}"))
+  let T ← getNatField j "T"
+  let data := frames.map (fun f => extractFrame f measurements T)
+  let pi : α ← getNum j "pi"
+  let norm : α ← getNum j "norm"
+  let measIdx ← getNatList j "measIdx"
+  let defaults ← decKV (α := α) (← j.getObjVal? "defaults")
+  let thetaIdx ← getNatList j "thetaIdx"
+  let theta ← getNumList (α := α) j "theta"
+  let current ← getNumList (α := α) j "current"
+  let priors ← (← getArr j "priors").toList.mapM (fun it => do
+    return ((← decPriorSpec (α := α) it), getBoolD it "positive" false))
+  let tj ← getArr j "trajs"
+  let trajs ← (tj.toList.zip data).mapM (fun (t, d) => do
+    return ({ x0 := ← getNumList (α := α) t "x0", cond := ← decKV (α := α) (← t.getObjVal? "cond"),
+              times := ← getNumList (α := α) t "times", data := d } : Traj α))
+  let base := applyDict (applyDict current defaults) (thetaIdx.zip theta)
+  let enc2 (rows : List (List α)) : Json := Json.arr (rows.map encList).toArray
+  match j.getObjVal? "simrows" with
+  | .error _ =>
+    return Json.mkObj [("data", Json.arr (data.map enc2).toArray),
+      ("params", Json.arr (trajs.map (fun tr => encList (applyDict base tr.cond))).toArray)]
+  | .ok sr =>
+    let rowsPer ← (← sr.getArr?).toList.mapM (decRows (α := α))
+    -- the supplied simulations, looked up by (parameters, initial state, time points)
+    let key (p x0 t : List α) : String := (Json.arr #[encList p, encList x0, encList t]).compress
+    let table := (trajs.zip rowsPer).map (fun (tr, rows) => (key (applyDict base tr.cond) tr.x0 tr.times, rows))
+    let sim (p x0 t : List α) : List (List α) :=
+      match table.find? (fun e => e.1 == key p x0 t) with
+      | some e => e.2
+      | none => []
+    match cost sim pi norm measIdx defaults priors thetaIdx trajs current theta with
+    | some c => return Json.mkObj [("cost", Codec.enc c)]
+    | none => return Json.mkObj [("cost", Json.null)]
+
 def dispatch (op : String) (j : Json) : Except String Json :=
   match op with
   | "prop" => jobProp (α := α) j
@@ -300,6 +357,7 @@ def dispatch (op : String) (j : Json) : Except String Json :=
   | "rule" => jobRule (α := α) j
   | "modelops" => jobModelOps (α := α) j
   | "prior" => jobPrior (α := α) j
+  | "infer" => jobInfer (α := α) j
   | _ => throw s!"unknown op {op}"
 end
 
